@@ -62,8 +62,12 @@ func runC14(c *Ctx) {
 		if h == nil {
 			c.Unk("C14.G", "handler:closure", p, pr.Pos(), "no handler closure calling isHTMLRequest found in banner.Proxy")
 		} else {
+			wi, ri := 0, 1
+			if h.Signature.Recv() != nil {
+				wi, ri = 1, 2 // the handler literal became a method (ServeHTTP/serve) of a small type
+			}
 			hr := Calls(h, bpkg+".isHTMLRequest")[0]
-			c.ArgIs("C14.G", "handler:predicate-on-own-request", p, hr, 0, "isHTMLRequest judges the handler's own request", P(h, 1))
+			c.ArgIs("C14.G", "handler:predicate-on-own-request", p, hr, 0, "isHTMLRequest judges the handler's own request", P(h, ri))
 			env := func(val bool) Env {
 				return func(v ssa.Value) (constant.Value, bool) {
 					if v == hr.(ssa.Value) {
@@ -87,7 +91,26 @@ func runC14(c *Ctx) {
 			okPass := false
 			for _, call := range Calls(h, "(net/http.Handler).ServeHTTP") {
 				a := Args(CallOf(call))
-				if PathOf(a[1]) == P(h, 0) && PathOf(a[2]) == P(h, 1) && PathOf(a[0]) == P(pr, 1) {
+				// the writer handed on is the handler's own, or (single call site after `if html { w = banner writer }`)
+				// one of {own writer, the banner writer that only exists on the HTML branch}
+				okW := false
+				for _, r := range Roots(a[1]) {
+					if pr2, isP := r.(*ssa.Parameter); isP && pr2 == h.Params[wi] {
+						okW = true
+						continue
+					}
+					isBW := false
+					for _, al := range as {
+						if r == ssa.Value(al) {
+							isBW = true
+						}
+					}
+					if !isBW {
+						okW = false
+						break
+					}
+				}
+				if okW && PathOf(a[2]) == P(h, ri) && PathOf(a[0]) == P(pr, 1) {
 					h2, _ := (&Walk{Target: func(i ssa.Instruction) bool { return i == call }, Edge: EdgeUnder(env(false))}).FromBlock(h.Blocks[0])
 					if h2 != nil {
 						okPass = true
@@ -98,15 +121,15 @@ func runC14(c *Ctx) {
 			if len(as) == 1 {
 				if v, ok := LiteralField(as[0], "isAlreadyFramed"); ok {
 					call := CallResult(v, 0, bpkg+".isAlreadyFramed")
-					c.Check("C14.G", "handler:framed-flag-from-predicate", p, as[0].Pos(), call != nil && PathOf(call.Call.Args[0]) == P(h, 1), "isAlreadyFramed field = isAlreadyFramed(r)", "the already-framed flag is not isAlreadyFramed(<own request>)")
+					c.Check("C14.G", "handler:framed-flag-from-predicate", p, as[0].Pos(), call != nil && PathOf(call.Call.Args[0]) == P(h, ri), "isAlreadyFramed field = isAlreadyFramed(r)", "the already-framed flag is not isAlreadyFramed(<own request>)")
 				} else {
 					c.Bad("C14.G", "handler:framed-flag-from-predicate", p, as[0].Pos(), "isAlreadyFramed is not set: framed requests get the frame again")
 				}
 				if v, ok := LiteralField(as[0], "targetURL"); ok {
-					c.PathIs("C14.G", "handler:frame-embeds-requested-url", p, as[0].Pos(), v, "the frame embeds the requested URL", P(h, 1)+".URL")
+					c.PathIs("C14.G", "handler:frame-embeds-requested-url", p, as[0].Pos(), v, "the frame embeds the requested URL", P(h, ri)+".URL")
 				}
 				if v, ok := LiteralField(as[0], "wrapped"); ok {
-					c.PathIs("C14.G", "handler:wraps-own-writer", p, as[0].Pos(), v, "the banner writer wraps the handler's own writer", P(h, 0))
+					c.PathIs("C14.G", "handler:wraps-own-writer", p, as[0].Pos(), v, "the banner writer wraps the handler's own writer", P(h, wi))
 				}
 			}
 		}
@@ -309,13 +332,17 @@ func runC14(c *Ctx) {
 		}
 		bad := ""
 		for _, m := range []string{"POST", "HEAD", "PUT", "DELETE", "OPTIONS", "get", ""} {
+			m := m
 			h, _ := (&Walk{Target: func(i ssa.Instruction) bool {
 				r, ok := i.(*ssa.Return)
 				if !ok {
 					return false
 				}
-				cv, isC := ReturnValue(r, 0).(*ssa.Const)
-				return !(isC && cv.Value != nil && !constant.BoolVal(cv.Value))
+				// the returned value under this method: a constant, or an `a && b` value whose first conjunct decides
+				if cv, okE := Eval(ReturnValue(r, 0), env(m)); okE && cv.Kind() == constant.Bool && !constant.BoolVal(cv) {
+					return false
+				}
+				return true
 			}, Edge: EdgeUnder(env(m))}).FromBlock(f.Blocks[0])
 			if h != nil {
 				bad = "method " + m + " can yield something other than false"
@@ -324,11 +351,16 @@ func runC14(c *Ctx) {
 		c.Check("C14.T", "isHTMLRequest:only-GET", p, f.Pos(), bad == "", "every method other than GET is rejected", "isHTMLRequest: "+bad+": the banner is injected into responses to non-GET requests")
 		okAcc := false
 		for _, r := range Returns(f) {
-			if call := CallResult(ReturnValue(r, 0), 0, "strings.Contains"); call != nil {
-				s, _ := ConstString(call.Call.Args[1])
-				if g := CallResult(call.Call.Args[0], 0, "(net/http.Header).Get"); g != nil {
-					k, _ := ConstString(g.Call.Args[1])
-					okAcc = s == "text/html" && canonicalHeaderKey(k) == "Accept" && PathOf(g.Call.Args[0]) == P(f, 0)+".Header"
+			var cands []ssa.Value
+			cands = append(cands, ReturnValue(r, 0))
+			cands = append(cands, Conjuncts(ReturnValue(r, 0), 0)...)
+			for _, cand := range cands {
+				if call := CallResult(cand, 0, "strings.Contains"); call != nil {
+					s, _ := ConstString(call.Call.Args[1])
+					if g := CallResult(call.Call.Args[0], 0, "(net/http.Header).Get"); g != nil {
+						k, _ := ConstString(g.Call.Args[1])
+						okAcc = s == "text/html" && canonicalHeaderKey(k) == "Accept" && PathOf(g.Call.Args[0]) == P(f, 0)+".Header"
+					}
 				}
 			}
 		}
@@ -370,6 +402,29 @@ func runC14(c *Ctx) {
 			if lk, ok := i.(*ssa.Lookup); ok {
 				if s, ok := ConstString(lk.Index); ok {
 					keys[s] = true
+				}
+			}
+			// the substrings handed to a new search helper (anyValueContains(values, "text/html", …))
+			if h := syncHelperCallee(i); h != nil && i.Parent() == f {
+				for _, a := range CallOf(i).Args {
+					if s, ok := ConstString(a); ok {
+						consts[s] = true
+					}
+					if sl, isS := a.(*ssa.Slice); isS {
+						if arr, isA := sl.X.(*ssa.Alloc); isA {
+							for _, r := range Refs(arr) {
+								if ia, isI := r.(*ssa.IndexAddr); isI {
+									for _, u := range Refs(ia) {
+										if st, isSt := u.(*ssa.Store); isSt {
+											if s, ok := ConstString(st.Val); ok {
+												consts[s] = true
+											}
+										}
+									}
+								}
+							}
+						}
+					}
 				}
 			}
 			if IsCall(i, "(net/http.Header).Get", "(net/http.Header).Values") {
